@@ -173,6 +173,21 @@ def e1(ctx, prog, bodies):
                 ctx.ob("E1", b.defp, f"narrowing-length-cast:{key_detail}", loc(s["sp"]), why is not None,
                        (f"`len as {to}` is {why}") if why else
                        f"a length is cast `{frm} as {to}` and written to the wire ({sink[0].name}) without any range guard: a value above {MAXV[to]} is silently truncated and the remaining bytes are re-interpreted by the receiver")
+    # a checked conversion (u8::try_from(len) / len.try_into()) is the same obligation, discharged by the type
+    for b in [b_ for b_ in bodies if any(k in b_.defp for k in ("::codec", "::protocol", "client::trojan", "client::vmess", "client::shadowsocks", "server::trojan", "server::vmess", "server::shadowsocks"))]:
+        for (blk, c, t) in b.calls():
+            if c.name not in ("TryFrom::try_from", "TryInto::try_into") or not t["args"]:
+                continue
+            p = op_place(t["args"][0])
+            dty = b.local_ty(t["dest"][0])
+            m = re.search(r"Result<(u8|u16|u32)\b", dty)
+            if p is None or not m:
+                continue
+            _, calls, _ = b.slice_back([p[0]])
+            if not any(cc.method in ("len", "remaining") for (_, cc, _) in calls):
+                continue
+            n += 1
+            ctx.ob("E1", b.defp, f"narrowing-length-cast:checked->{m.group(1)}", loc(t["sp"]), True, f"length converted with a checked {c.name} to {m.group(1)}: an oversized value is an error, not a truncation")
     ctx.floor("E1", "narrowing casts of wire lengths", 8, n)
 
 
@@ -505,13 +520,13 @@ def e2_e3(ctx, prog, bodies):
                     if p:
                         locs, calls, _ = e.slice_back([p[0]])
                         if any(cc.method == "len" for (_, cc, _) in calls):
-                            len_src = (sorted(cc.name for (_, cc, _) in calls if cc.method not in ("len", "deref", "as_bytes")), {l for l in locs if e.locals[l].get("user")})
+                            len_src = (sorted(cc.name for (_, cc, _) in calls if cc.method not in ("len", "deref", "as_bytes") and cc.name not in _VALUE_PRESERVING), {l for l in locs if e.locals[l].get("user") and _is_strish(e, l)})
                 if c.method == "extend_from_slice":
                     p = op_place(t["args"][1])
                     if p:
                         locs, calls, _ = e.slice_back([p[0]])
                         if any(cc.method == "as_bytes" for (_, cc, _) in calls):
-                            bytes_src = (sorted(cc.name for (_, cc, _) in calls if cc.method not in ("len", "deref", "as_bytes")), {l for l in locs if e.locals[l].get("user")})
+                            bytes_src = (sorted(cc.name for (_, cc, _) in calls if cc.method not in ("len", "deref", "as_bytes") and cc.name not in _VALUE_PRESERVING), {l for l in locs if e.locals[l].get("user") and _is_strish(e, l)})
         ok = len_src is not None and bytes_src is not None and len_src[0] == bytes_src[0] and bool(len_src[1] & bytes_src[1]) and not (len_src[1] ^ bytes_src[1]) - _aliases(e, len_src[1] | bytes_src[1])
         ctx.ob("E3", e.defp, "Domain:length-and-bytes-same-string", loc(e.sp), ok,
                f"{style}: the length byte and the name bytes derive from the same string" if ok else f"{style}: length byte derives via {len_src}, name bytes via {bytes_src}: they can disagree", ordinal=False)
@@ -639,3 +654,12 @@ def _helper_regions(h):
                 if name:
                     out[name] = {x for x in h.rpo() if h.dominates(tgt, x)}
     return out
+
+
+# conversions that hand the same number on (or fail): they do not make the length describe another string
+_VALUE_PRESERVING = ("TryFrom::try_from", "TryInto::try_into", "From::from", "Into::into", "Try::branch", "Result::unwrap", "Result::expect", "Option::unwrap", "Option::expect")
+
+
+def _is_strish(b, l):
+    ty = b.local_ty(l)
+    return bool(re.search(r"\bstr\b|\bString\b", ty))
